@@ -192,7 +192,8 @@ def read_data(fh, mcnp_version, block_type=None, recursion=False):
                 f"The line: {old_line} exceeded the allowed line length of: {line_length} for MCNP {mcnp_version}",
                 errors.LineOverRunWarning,
             )
-        if line.rstrip().endswith(" &"):
+        # a "$" starts a comment: an "&" inside it is text, not a continuation mark
+        if line.rstrip().endswith(" &") and "$" not in line:
             continue_input = True
         else:
             continue_input = False
